@@ -43,12 +43,23 @@ def replay_wulff(data):
     cases.append((np.vstack([octa, np.array([[0, 0, 1.0], [0, 0, -1.0]])]), np.r_[np.ones(8), 1.1, 1.1]))
     # a cube whose corners are cut by tiny {111} facets: true edges of length 1.4e-3, far above the pruning threshold of 1e-5
     cases.append((np.vstack([cube, octa]), np.r_[np.ones(6), ((3 - 1e-3) / np.sqrt(3)) * np.ones(8)]))
+    # the same shapes with the normals given as integer arrays / nested lists and non-integer energies (axis-aligned normals are
+    # naturally written as integers, as in the library's own cube example)
+    typed = []
+    cuboid_e = np.array([1.0, 1.5, 2.5, 1.0, 1.5, 2.5])
+    for tag, conv in (("integer array", lambda a: np.asarray(a).astype(int)), ("nested lists of ints", lambda a: np.asarray(a).astype(int).tolist()), ("int8 array", lambda a: np.asarray(a).astype(np.int8))):
+        typed.append((tag, conv(cube), cube, cuboid_e))
+        typed.append((tag, conv(cube), cube, 0.5 * cuboid_e))
     for normals, e in cases:
+        typed.append((None, normals, normals, e))
+    for tag, given, normals, e in typed:
         try:
-            w = WulffConstruction(normals, e)
+            w = WulffConstruction(given, e if tag is None else (e.tolist() if "lists" in tag else e))
         except Exception as ex_:
-            bad.append("WulffConstruction raises %s: %s" % (type(ex_).__name__, ex_))
+            bad.append("WulffConstruction%s raises %s: %s" % ("" if tag is None else " (normals as %s)" % tag, type(ex_).__name__, ex_))
             continue
+        if tag is not None and not np.allclose(np.asarray(w.facet_energies, float), e, rtol=0, atol=1e-12):
+            bad.append("normals given as %s: the energies kept by the construction are not the energies given" % tag)
         V = np.asarray(w.wulff_vertices, float)
         slack = normals @ V.T - e[:, None]
         if slack.max() > 1e-8:
@@ -66,7 +77,7 @@ def replay_wulff(data):
         vol = np.einsum("ij,ij->i", V[T[:, 0]], np.cross(V[T[:, 1]], V[T[:, 2]])).sum() / 6
         if abs(vol - ConvexHull(ref).volume) > 1e-6 * max(1.0, vol):
             bad.append("mesh volume %.6g differs from the polyhedron's %.6g (faces not outward-consistent or not closed)" % (vol, ConvexHull(ref).volume))
-        w2 = WulffConstruction(normals, 2.5 * e)
+        w2 = WulffConstruction(given, 2.5 * e)
         if not np.allclose(np.unique(np.round(np.asarray(w2.wulff_vertices, float), 6), axis=0), np.unique(np.round(2.5 * V, 6), axis=0), rtol=0, atol=1e-5):
             bad.append("scaling the energies by 2.5 does not scale the shape by 2.5")
     return bool(bad), bad[:4]
@@ -113,7 +124,61 @@ def run(ctx):
     ctx.stub("ordering lemma: np.linalg.norm of a direction = 1 (positive scaling does not change arctan2); np.arctan2 = exactly ordered key (half-plane + cross product)")
     ctx.stub("scipy ConvexHull(points).simplices: any triangulation of the hull boundary -- for each simplex every dual point and the origin lie on one side of its plane, the origin strictly")
     ctx.out_of_scope("agreement of volume with an independent intersection (follows from vertex-set equality; only in the numeric replay oracle); qhull itself; coincident vertices beyond the pruning threshold")
-    ctx.parallel_sections([("vertex", part_vertex), ("order", lambda c: part_order(c, ctx.tier == "thorough"))])
+    ctx.parallel_sections([("constructor", part_constructor), ("vertex", part_vertex), ("order", lambda c: part_order(c, ctx.tier == "thorough"))])
+
+
+def part_constructor(ctx):
+    """the constructor keeps the normals and the (symbolic) energies it is given, whatever array type the normals come in; the
+    pipeline steps are no-ops here (they are the subject of the other sections)"""
+    from chmpy.crystal import wulff as real
+    ctx.encode(real.WulffConstruction.__init__)
+    mw = load_shimmed("chmpy.crystal.wulff")
+    C = mw.WulffConstruction
+    E = [Sym(z3.Real("ce%d" % i)) for i in range(6)]
+    cube = np.vstack([np.eye(3), -np.eye(3)]).astype(int)
+    steps = ("_populate_duals", "_construct_dual_space_hull", "_extract_wulff_from_dual_mesh", "_fix_wulff_mesh")
+    saved = {n: getattr(C, n) for n in steps}
+    for n in steps:
+        setattr(C, n, lambda self: None)
+    why = None
+    try:
+        for tag, normals in (("integer array", cube), ("float array", cube.astype(float)), ("nested lists of ints", cube.tolist())):
+            ex = Explorer(assumptions=[e.t > 0 for e in E])
+            paths = ex.run(lambda: C(normals, list(E)))
+            ctx.add_paths(ex)
+            for p in paths:
+                if p.exc is not None:
+                    why = why or "normals as %s: the constructor raises %s: %s" % (tag, type(p.exc).__name__, p.exc)
+                    continue
+                w = p.value
+                kept = np.asarray(w.facet_energies, dtype=object).ravel()
+                okn = np.asarray(w.facet_normals, dtype=object).shape == (6, 3) and all(float(np.asarray(w.facet_normals, dtype=object)[i, k]) == cube[i, k] for i in range(6) for k in range(3))
+                if len(kept) != 6 or not okn:
+                    why = why or "normals as %s: normals / energies kept by the constructor have another shape or value" % tag
+                    continue
+                r = ctx.query("constructor (normals as %s): the energies kept are the energies given, for all positive energies" % tag, p.pc,
+                              z3.And([(Sym._lift(kept[i]) == E[i]).t for i in range(6)]), ex=ex)
+                if r.verdict == "cex":
+                    why = why or "normals as %s: the energies kept by the constructor are not the energies given" % tag
+    finally:
+        for n, f in saved.items():
+            setattr(C, n, f)
+    # the symbolic arrays above carry no machine type: the same statement on the real class for the array types callers use
+    # (integer normals with non-integer energies)
+    gbad = None
+    for tag, conv in (("integer array", lambda a: a.astype(int)), ("nested lists of ints", lambda a: a.astype(int).tolist()), ("int8 array", lambda a: a.astype(np.int8)), ("float32 array", lambda a: a.astype(np.float32))):
+        for en in ([1.0, 1.5, 2.5, 1.0, 1.5, 2.5], [0.5, 0.75, 1.25, 0.5, 0.75, 1.25], np.array([1.0, 1.5, 2.5, 1.0, 1.5, 2.5])):
+            try:
+                wr = real.WulffConstruction(conv(cube.astype(float)), en)
+                if not np.allclose(np.asarray(wr.facet_energies, float), np.asarray(en, float), rtol=0, atol=1e-12):
+                    gbad = gbad or "normals as %s: the energies kept by the constructor are not the energies given" % tag
+            except Exception as e_:
+                gbad = gbad or "normals as %s: the constructor raises %s" % (tag, type(e_).__name__)
+    ctx.record("constructor: energies kept = energies given for normals given as integer / int8 / float32 arrays and nested lists (ground instances, real class)",
+               "holds" if gbad is None else "counterexample", nontrivial=True, method="ground instances")
+    why = why or gbad
+    if why:
+        ctx.violation("wulff:constructor", why, {}, replay_wulff)
 
 
 def part_vertex(ctx):
